@@ -1,5 +1,8 @@
 import Sebuf.DriverC05
 import Sebuf.OpenApi
+import Sebuf.OaComp
+import Sebuf.OaEmit
+import Sebuf.DriverSchema
 namespace Sebuf.Driver
 
 instance : Inhabited Sebuf.Json := ⟨Sebuf.Json.null⟩
@@ -33,5 +36,35 @@ def opSchemaValid (j : Lean.Json) : Lean.Json :=
     let fuel := Schema.defaultFuel comps schema i
     Lean.Json.mkObj [("valid", Lean.Json.bool (Schema.valid comps fuel schema i)),
       ("undeclared", strArr (Schema.undeclared comps fuel schema i))]).toArray)]
+
+
+def evArr (l : List OaComp.Ev) : Lean.Json := Lean.Json.arr (l.map fun e => Lean.Json.arr #[jstr e.1, jstr e.2]).toArray
+
+/-- predicted component schemas (name, what it describes) and reachable messages of one service. -/
+def opOaComponents (j : Lean.Json) : Lean.Json :=
+  let rq := requestOf (j.getObjValD "model")
+  let svcName := getStr j "service"
+  match (rq.files.flatMap (·.services)).find? (·.name == svcName) with
+  | none => Lean.Json.mkObj [("driver_err", Lean.Json.str "no such service")]
+  | some svc =>
+    let fuel := OaComp.defaultFuel rq
+    let comps := OaComp.components rq fuel svc
+    Lean.Json.mkObj [("components", evArr comps), ("reach", strArr (OaComp.Spec.reach rq fuel svc)),
+      ("complete", Lean.Json.bool (OaComp.Spec.complete rq fuel svc comps))]
+
+/-- predicted output file names for a `format` parameter value (absent = no "param" key). -/
+def opOaNames (j : Lean.Json) : Lean.Json :=
+  let param : Option String := match j.getObjValAs? String "param" with | .ok s => some s | .error _ => none
+  let svcs := (getStrList j "services").map String.ofList
+  Lean.Json.mkObj [("format", Lean.Json.str (OaEmit.formatOf param)),
+    ("names", Lean.Json.arr ((OaEmit.docNames param svcs).map Lean.Json.str).toArray)]
+
+
+/-- YAML 1.1 re-typing of property names / plain scalars in the JSON rendering. -/
+def opYaml11 (j : Lean.Json) : Lean.Json :=
+  let ss := (getStrList j "strings").map String.ofList
+  Lean.Json.mkObj [("keys", Lean.Json.arr (ss.map fun s => Lean.Json.str (OaEmit.jsonRenderKey s)).toArray),
+    ("retyped", Lean.Json.arr (ss.map fun s => Lean.Json.bool (OaEmit.yaml11Bool s).isSome).toArray),
+    ("crashes", Lean.Json.bool (OaEmit.jsonRenderCrashes ss))]
 
 end Sebuf.Driver
